@@ -10,11 +10,11 @@ import (
 // agent's id, {ROOT} = absolute path of the temp root. Templates are expanded when the
 // history runs, so the same history can be re-run with fresh agent ids (minimisation).
 type Op struct {
-	Kind   string `json:"kind"`            // open | write | close | shot | output | svc | svcout
-	Agent  int    `json:"agent"`           // index into History.Agents (demon ops)
-	Fam    string `json:"fam,omitempty"`   // fs (COMMAND_FS download) | beacon (BEACON_OUTPUT CALLBACK_FILE*)
+	Kind   string `json:"kind"`          // open | write | close | shot | output | svc | svcout
+	Agent  int    `json:"agent"`         // index into History.Agents (demon ops)
+	Fam    string `json:"fam,omitempty"` // fs (COMMAND_FS download) | beacon (BEACON_OUTPUT CALLBACK_FILE*)
 	FileID uint32 `json:"file_id,omitempty"`
-	Name   []byte `json:"name,omitempty"`  // file name template (raw bytes; fs family: UTF-8 text sent as UTF-16LE)
+	Name   []byte `json:"name,omitempty"`   // file name template (raw bytes; fs family: UTF-8 text sent as UTF-16LE)
 	NameQ  string `json:"name_q,omitempty"` // quoted copy of Name for readers of the witness
 	Size   uint64 `json:"size,omitempty"`
 	Chunk  []byte `json:"chunk,omitempty"`
